@@ -242,7 +242,14 @@ def gen_scenario(rng: random.Random) -> list[list[str]]:
         # a multi-tick command in a body that runs again while (or just when) the previous invocation's command ends
         cmd = rng.choice(["LongA", "LongB", "LongC", "Ramp"])
         n = rng.randint(2, 12)
-        if k == 13:      # macro called back to back
+        if k == 13 and rng.random() < 0.5:
+            # two commands in the body that replace each other (same name or an overlap group), the later one still running
+            # when the next call starts the earlier one
+            c1, c2 = rng.choice([("LongA", "LongB"), ("LongB", "LongC"), ("LongB", "LongA"), ("Ramp", "Ramp"), ("LongC", "LongC")])
+            n1, n2 = rng.sample(range(5, 16), 2)
+            lines = ["Macro: MR", "    " + m(), f"    {c1}: {n1}", "    " + m(), f"    {c2}: {n2}", "    " + m()] + \
+                ["Call macro: MR"] * rng.randint(2, 3) + [m()]
+        elif k == 13:      # macro called back to back
             lines = ["Macro: MR", "    " + m(), f"    {cmd}: {n}", "    " + m()] + ["Call macro: MR"] * rng.randint(2, 3) + [m()]
         elif k == 14:    # always-true alarm
             lines = ["Base: s", f"Alarm: {rng.choice(['Run Time > 0.2 s', 'LVL >= 50 %', 'PV2 < 30 degC'])}", "    " + m(), f"    {cmd}: {n}",
